@@ -3,6 +3,7 @@ package sim
 import (
 	"go.sia.tech/core/consensus"
 	"go.sia.tech/core/types"
+	"math/big"
 	"pgregory.net/rapid"
 	"verif/harness/ref"
 )
@@ -166,25 +167,25 @@ func (a *Adv) ContractProbes() int {
 				return true
 			})
 			// the proven contract revised by the very transaction that proves it (only possible in the block in which the
-		// window opens): the revision commits to another file and a later window, the proof is for the old one. A proof
-		// is judged against the contract's latest accepted revision, so this cannot resolve the contract.
-		if lock, known := a.G.W.Locks[fc.UnlockHash]; pi == 0 && known && lock.UC != nil && fc.WindowStart == a.Child && fc.RevisionNumber < types.MaxRevisionNumber-1 && lock.Spendable(false, a.Child, MedianTimestamp(a.CS)) {
-			blk := CloneBlock(a.Honest)
-			x := &blk.Transactions[ti]
-			rev := fc
-			rev.ValidProofOutputs = append([]types.SiacoinOutput(nil), fc.ValidProofOutputs...)
-			rev.MissedProofOutputs = append([]types.SiacoinOutput(nil), fc.MissedProofOutputs...)
-			rev.RevisionNumber++
-			rev.FileMerkleRoot, rev.Filesize = types.Hash256{0xAB, 0xCD}, 192
-			rev.WindowStart, rev.WindowEnd = a.Child+10, a.Child+20
-			x.FileContractRevisions = append(x.FileContractRevisions, types.FileContractRevision{ParentID: e.ID, UnlockConditions: *lock.UC, FileContract: rev})
-			SignV1(a.CS, x, false)
-			if a.emit(blk, "v1-proof/proven-contract-revised-by-the-same-transaction/era-"+era, "reject", map[string]string{"leaves": sizeClassLeaves(nLeaves)}, nil) {
-				n++
-				probed = true
+			// window opens): the revision commits to another file and a later window, the proof is for the old one. A proof
+			// is judged against the contract's latest accepted revision, so this cannot resolve the contract.
+			if lock, known := a.G.W.Locks[fc.UnlockHash]; pi == 0 && known && lock.UC != nil && fc.WindowStart == a.Child && fc.RevisionNumber < types.MaxRevisionNumber-1 && lock.Spendable(false, a.Child, MedianTimestamp(a.CS)) {
+				blk := CloneBlock(a.Honest)
+				x := &blk.Transactions[ti]
+				rev := fc
+				rev.ValidProofOutputs = append([]types.SiacoinOutput(nil), fc.ValidProofOutputs...)
+				rev.MissedProofOutputs = append([]types.SiacoinOutput(nil), fc.MissedProofOutputs...)
+				rev.RevisionNumber++
+				rev.FileMerkleRoot, rev.Filesize = types.Hash256{0xAB, 0xCD}, 192
+				rev.WindowStart, rev.WindowEnd = a.Child+10, a.Child+20
+				x.FileContractRevisions = append(x.FileContractRevisions, types.FileContractRevision{ParentID: e.ID, UnlockConditions: *lock.UC, FileContract: rev})
+				SignV1(a.CS, x, false)
+				if a.emit(blk, "v1-proof/proven-contract-revised-by-the-same-transaction/era-"+era, "reject", map[string]string{"leaves": sizeClassLeaves(nLeaves)}, nil) {
+					n++
+					probed = true
+				}
 			}
-		}
-		// proof presented for another live contract (its own challenge / root differ)
+			// proof presented for another live contract (its own challenge / root differ)
 			for _, o := range a.G.C.Store.SortedFC() {
 				if o.ID != e.ID && o.FileContract.WindowStart <= a.Child && o.FileContract.WindowStart >= 1 && o.FileContract.WindowEnd >= a.Child && o.FileContract.FileMerkleRoot != fc.FileMerkleRoot && o.FileContract.Filesize > 0 {
 					used := false
@@ -542,6 +543,31 @@ func (a *Adv) ContractProbes() int {
 			mk("renter-rollover+1-spent-as-fee", func(r *types.V2FileContractRenewal, x *types.V2Transaction) bool {
 				r.RenterRollover = r.RenterRollover.Add(one)
 				x.MinerFee = x.MinerFee.Add(one)
+				return true
+			})
+			// value moved from a final output into the rollover until the rollover exceeds what the new contract costs by
+			// one hasting (the sum stays the old contract's value); the surplus leaves at once as miner fee instead of
+			// through a delayed final output
+			mk("rollover-one-above-new-contract-cost", func(r *types.V2FileContractRenewal, x *types.V2Transaction) bool {
+				cost := ref.Big(r.NewContract.RenterOutput.Value)
+				cost.Add(cost, ref.Big(r.NewContract.HostOutput.Value)).Add(cost, ref.TaxV2(r.NewContract.RenterOutput.Value, r.NewContract.HostOutput.Value))
+				d := new(big.Int).Add(cost, big.NewInt(1))
+				d.Sub(d, ref.Big(r.RenterRollover)).Sub(d, ref.Big(r.HostRollover))
+				if d.Sign() <= 0 || d.BitLen() > 120 {
+					return false
+				}
+				dc := cur(d)
+				switch {
+				case r.FinalRenterOutput.Value.Cmp(dc) >= 0:
+					r.FinalRenterOutput.Value = r.FinalRenterOutput.Value.Sub(dc)
+					r.RenterRollover = r.RenterRollover.Add(dc)
+				case r.FinalHostOutput.Value.Cmp(dc) >= 0:
+					r.FinalHostOutput.Value = r.FinalHostOutput.Value.Sub(dc)
+					r.HostRollover = r.HostRollover.Add(dc)
+				default:
+					return false
+				}
+				x.MinerFee = x.MinerFee.Add(dc)
 				return true
 			})
 			mk("changes-host-key", func(r *types.V2FileContractRenewal, x *types.V2Transaction) bool {
